@@ -381,6 +381,27 @@ def memo_complete(f: Func, container_text: str) -> Tuple[bool, str]:
                         names |= closure(v, depth + 1)
         return names
 
+    # a key part that is *computed* from a parameter (`MolToSmiles(mol)`, `tuple(sorted(x))`) is a projection: two
+    # arguments with the same projection can differ in what the other key parts or the function itself refer to (the
+    # atom order behind an index), so such a table is not accepted as keyed by its inputs
+    pset = set(f.params) | set(f.kwonly)
+
+    def projection(e, depth=0):
+        for x in ast.walk(e):
+            if isinstance(x, ast.Call) and not (isinstance(x.func, ast.Name) and x.func.id in ("int", "str", "float", "bool", "tuple", "frozenset", "id", "repr")):
+                if any(isinstance(y, ast.Name) and y.id in pset for a_ in list(x.args) + [k_.value for k_ in x.keywords] for y in ast.walk(a_)) or (isinstance(x.func, ast.Attribute) and any(isinstance(y, ast.Name) and y.id in pset for y in ast.walk(x.func.value))):
+                    return x
+            if isinstance(x, ast.Name) and depth < 3 and x.id not in pset:
+                for _s, v_, _i in assignments_to(f, x.id):
+                    got = projection(v_, depth + 1)
+                    if got is not None:
+                        return got
+        return None
+
+    for _, k in stores:
+        pr = projection(k)
+        if pr is not None:
+            return False, "the key contains %s, a value computed from a parameter rather than the parameter itself" % unparse(pr)[:50]
     key_names = set()
     for _, k in stores:
         key_names |= closure(k)
